@@ -6,7 +6,7 @@ from ..mir import storage_call, switch_conds, cmp_true_false_edges
 from ..dataflow import (forward_flow, message_creations, single_var_guard, single_var_regions, single_var_walk,
                         const_of, field_sources, call_of)
 from ..effects import fn_effects, resolve_param_item, enumerate_chains
-from .common import (arg_origins, strip_proj, must_pass_through, ok_value_blocks, storage_calls, writers_of)
+from .common import (arg_origins, strip_proj, must_pass_through, ok_value_blocks, storage_calls, writers_of, on_every_success_path)
 
 EXPLANATION = """
 F1: in pair/trio `swap` and vault `after_trade`, the protocol fee value (provenance: compute_swap(..).protocol_fee_amount /
@@ -29,13 +29,19 @@ ASSUMPTIONS = [
 POOLS = ["terraswap_pair", "stableswap_3pool"]
 
 
-def item_of_store_fee(model, view, b, t, crate):
-    """Which ledger a store_fee call targets (the Item argument, wherever it is positioned)."""
+def items_of_store_fee(model, view, b, t, crate):
+    """Which ledger(s) a store_fee call targets (the Item argument, wherever it is positioned): one for a plain call,
+    several when the call sits in a loop over a literal list of ledgers. Returns ([items], argument index)."""
     for i, a in enumerate(t["args"]):
-        for o in view.origins_of_operand(a, at=view.at_term(b)):
-            if o.kind == "item" and "::state::" in o.a:
-                return o.a, i
-    return None, None
+        os_ = view.origins_of_operand(a, at=view.at_term(b))
+        if os_ and all(o.kind == "item" and "::state::" in o.a for o in os_):
+            return sorted(o.a for o in os_), i
+    return [], None
+
+
+def item_of_store_fee(model, view, b, t, crate):
+    items, i = items_of_store_fee(model, view, b, t, crate)
+    return (items[0], i) if len(items) == 1 else (None, None)
 
 
 CLONE = r"as std::clone::Clone>::clone$"
@@ -77,11 +83,10 @@ def check_swap(ctx, model, crate):
     oks = ok_value_blocks(v)
     seen = {}
     for b, t in v.calls_to(r"^%s::state::store_fee$" % crate):
-        item, idx = item_of_store_fee(model, v, b, t, crate)
-        if item is None:
+        items, idx = items_of_store_fee(model, v, b, t, crate)
+        if not items:
             ctx.ob("C07-F1", "%s|store_fee|unknown-item" % p, False, "store_fee call with unresolved ledger", v.where(b), kind="unrecognised")
             continue
-        short = item.split("::")[-1]
         amt = arg_origins(v, b, t, 1)
         idr = set()
         # asset id argument: get_id() of the ask pool
@@ -89,14 +94,15 @@ def check_swap(ctx, model, crate):
             c = call_of(v, o)
             if c and mname(c[1]).endswith("Asset::get_id"):
                 idr |= pool_identity_of(v, c[1]["args"][0], v.at_term(c[0]), ("info",))
-        seen.setdefault(short, []).append((b, amt, idr))
+        for item in items:
+            seen.setdefault(item.split("::")[-1], []).append((b, amt, idr, t["args"][idx]))
     for short, field in [("COLLECTED_PROTOCOL_FEES", "protocol_fee_amount"), ("ALL_TIME_COLLECTED_PROTOCOL_FEES", "protocol_fee_amount"),
                          ("ALL_TIME_BURNED_FEES", "burn_fee_amount")]:
         sites = seen.get(short, [])
         if not sites:
             ctx.ob("C07-F1", "%s|store_fee|%s" % (p, short), False, "no store_fee call for %s in swap" % short, v.where())
             continue
-        for b, amt, idr in sites:
+        for b, amt, idr, item_op in sites:
             ok_amt = bool(amt) and all(o.kind == "call" and o.a.endswith("helpers::compute_swap") and tuple(o.proj) == (field,) for o in amt)
             ok_id = bool(idr) and bool(ask_ids) and idr <= ask_ids and not (idr & (offer_ids - ask_ids))
             ctx.ob("C07-F1", "%s|store_fee|%s|value" % (p, short), ok_amt,
@@ -104,7 +110,7 @@ def check_swap(ctx, model, crate):
             ctx.ob("C07-F1", "%s|store_fee|%s|ask-pool" % (p, short), ok_id,
                    "ledger entry is keyed by the pool %s; ask pool is %s" % (sorted(idr), sorted(ask_ids)), v.where(b))
             if short != "ALL_TIME_BURNED_FEES":
-                ctx.ob("C07-F1", "%s|store_fee|%s|every-success-path" % (p, short), bool(oks) and must_pass_through(v, b, oks),
+                ctx.ob("C07-F1", "%s|store_fee|%s|every-success-path" % (p, short), bool(oks) and on_every_success_path(v, b, oks, item_op),
                        "store_fee(%s) lies on every path to a successful return" % short, v.where(b))
     # F2 burn: same branch holds the ledger write and the attached burn message
     burns = v.calls_to(r"Asset::into_burn_msg$")
@@ -115,9 +121,9 @@ def check_swap(ctx, model, crate):
         src = v.origins_of_operand(bt["args"][0], proj=("amount",), at=v.at_term(bb))
         ok_amt = bool(src) and all(o.kind == "call" and o.a.endswith("helpers::compute_swap") and tuple(o.proj) == ("burn_fee_amount",) for o in src)
         tainted, sinks, ret = forward_flow(v, [bt["dest"]["l"]])
-        together = all(must_pass_through(v, sb, [bb]) or must_pass_through(v, bb, [sb]) for sb, _, _ in bsites) and bool(bsites)
+        together = all(must_pass_through(v, sb, [bb]) or must_pass_through(v, bb, [sb]) for sb, _, _, _ in bsites) and bool(bsites)
         # and neither is reachable without the other: same guard region
-        same_region = all((bb in v.reach_strict(sb) or sb in v.reach_strict(bb)) for sb, _, _ in bsites)
+        same_region = all((bb in v.reach_strict(sb) or sb in v.reach_strict(bb)) for sb, _, _, _ in bsites)
         ctx.ob("C07-F2", "%s|burn|value-attached-paired" % p, ok_amt and bool(sinks) and together and same_region,
                "burn message amount from %s; attached: %s; paired with ALL_TIME_BURNED_FEES write: %s" % (sorted(map(repr, src)), bool(sinks), together), v.where(bb))
 
@@ -275,9 +281,10 @@ def check_vault_after_trade(ctx, model):
     oks = ok_value_blocks(v)
     seen = {}
     for b, t in v.calls_to(r"^vault::state::store_fee$"):
-        item, idx = item_of_store_fee(model, v, b, t, "vault")
+        items, idx = items_of_store_fee(model, v, b, t, "vault")
         amt = arg_origins(v, b, t, 2)
-        seen.setdefault((item or "?").split("::")[-1], []).append((b, amt))
+        for item in items or ["?"]:
+            seen.setdefault(item.split("::")[-1], []).append((b, amt, t["args"][idx] if idx is not None else None))
 
     def fee_value(os_, field):
         # Uint128::try_from(config.fees.<field>.compute(Uint256::from(loan_amount)))
@@ -298,11 +305,11 @@ def check_vault_after_trade(ctx, model):
         sites = seen.get(short, [])
         if not sites:
             ctx.ob("C07-F1", "%s|store_fee|%s" % (p, short), False, "no store_fee call for %s" % short, v.where())
-        for b, amt in sites:
+        for b, amt, item_op in sites:
             ctx.ob("C07-F1", "%s|store_fee|%s|value" % (p, short), fee_value(amt, field),
                    "amount stored in %s: %s (must be CONFIG.fees.%s.compute(loan_amount))" % (short, sorted(map(repr, amt)), field), v.where(b))
             if short != "ALL_TIME_BURNED_FEES":
-                ctx.ob("C07-F1", "%s|store_fee|%s|every-success-path" % (p, short), bool(oks) and must_pass_through(v, b, oks),
+                ctx.ob("C07-F1", "%s|store_fee|%s|every-success-path" % (p, short), bool(oks) and on_every_success_path(v, b, oks, item_op),
                        "store_fee(%s) lies on every path to a successful return" % short, v.where(b))
     burns = v.calls_to(r"Asset::into_burn_msg$")
     bsites = seen.get("ALL_TIME_BURNED_FEES", [])
@@ -311,7 +318,7 @@ def check_vault_after_trade(ctx, model):
     for bb, bt in burns:
         src = v.origins_of_operand(bt["args"][0], proj=("amount",), at=v.at_term(bb))
         tainted, sinks, ret = forward_flow(v, [bt["dest"]["l"]])
-        paired = bool(bsites) and all((bb in v.reach_strict(sb) and must_pass_through(v, sb, [bb])) or (sb in v.reach_strict(bb) and must_pass_through(v, bb, [sb])) for sb, _ in bsites)
+        paired = bool(bsites) and all((bb in v.reach_strict(sb) and must_pass_through(v, sb, [bb])) or (sb in v.reach_strict(bb) and must_pass_through(v, bb, [sb])) for sb, _, _ in bsites)
         ctx.ob("C07-F2", "%s|burn|value-attached-paired" % p, fee_value(src, "burn_fee") and (bool(sinks) or ret) and paired,
                "burn message amount from %s; attached: %s; paired with ALL_TIME_BURNED_FEES write: %s" % (sorted(map(repr, src)), bool(sinks) or ret, paired), v.where(bb))
 
